@@ -98,7 +98,7 @@ char *strdup(const char *s)
  * which hold the bytes the source held BEFORE the call (overlap-safe).  The real memmove preserves
  * more, so whatever is proved against this model holds for the real one; because vg_k / vg_k2 are
  * arbitrary, "byte vg_k is moved" is the universally quantified statement. */
-#ifndef VSTR_BUILTIN_MEMMOVE
+#ifdef VSTR_OWN_MEMMOVE
 void *memmove(void *dst, const void *src, size_t n)
 {
     __CPROVER_assert(n == 0 || __CPROVER_r_ok(src, n), "memmove source region readable");
@@ -125,7 +125,7 @@ void *memmove(void *dst, const void *src, size_t n)
  * Contents are ARBITRARY except at the positions 0, m-1, m-2 (m = min(old size, n)) and the ghost
  * positions vg_k, vg_k2, which are copied.  realloc(NULL, n) = malloc(n); n == 0 is not used
  * (libast's REALLOC macro maps it to free). */
-#ifndef VSTR_BUILTIN_REALLOC
+#ifdef VSTR_OWN_REALLOC
 void *realloc(void *p, size_t n)
 {
     if (p == NULL) return malloc(n);
